@@ -2,6 +2,7 @@
 Every random choice derives from the random.Random passed in.  Each generator returns
 (desc, tags) where tags describe what the case exercises (printed into the evidence)."""
 import itertools
+import json
 import random
 
 DIRS = ["North", "East", "South", "West", "Eject"]
@@ -545,6 +546,46 @@ def detour_suite(tier, seed):
                                                  "src_dir": "South", "dst_dir": "North"})
                     out.append((d, {"topo": "torus-y", "m": m, "n": n}))
     return out
+
+
+# ---------------------------------------------------------------------------------------------- colliding names (C12, C07)
+def _rename(d, m):
+    d = json.loads(json.dumps(d))
+    for e in d["endpoints"]:
+        e["name"] = m.get(e["name"], e["name"])
+    for r in d["routers"]:
+        r["name"] = m.get(r["name"], r["name"])
+    for c in d["connections"]:
+        for k in ("src", "dst"):
+            c[k] = m.get(c[k], c[k])
+    return d
+
+
+def name_collision_suite(tier, seed):
+    """distinct names (digits and underscores) whose CamelCase forms coincide: two scalar endpoints `a1` / `a_1`, an
+    array `cluster[2]` next to a scalar `cluster1`, two routers `r1` / `r_1`.  Whatever floogen does with them, an
+    accepted description must not declare a name twice (C12) and must name every instance once (C07)."""
+    rng = random.Random(seed + 83)
+    out = []
+    for algo in ("ID", "SRC", "XY"):
+        for nw in ((False,) if tier == "quick" else (False, True)):
+            if algo != "XY":
+                d, t = star(rng, 3, algo, nw, roles=["ms", "s", "m"], shapes=[None, None, None], nranges=[1, 1, 1])
+                out.append((_rename(d, {"epa": "a1", "epb": "a_1"}), dict(t, topo="names", collision="scalar-scalar")))
+                d, t = star(rng, 3, algo, nw, roles=["ms", "s", "m"], shapes=[2, None, None], nranges=[1, 1, 1])
+                out.append((_rename(d, {"epa": "cluster", "epb": "cluster1"}), dict(t, topo="names", collision="array-scalar")))
+                d, t = star(rng, 2, algo, nw, roles=["ms", "ms"], shapes=[None, None], nranges=[1, 1])
+                d = json.loads(json.dumps(d))
+                d["routers"] = [{"name": "r1"}, {"name": "r_1"}]
+                d["connections"] = [{"src": "epa", "dst": "r1"}, {"src": "epb", "dst": "r_1"}, {"src": "r1", "dst": "r_1"}]
+                out.append((d, dict(t, topo="names", collision="router-router")))
+            else:
+                d, t = mesh(rng, 2, 1, algo, nw, sides=("W",))
+                if d is not None:
+                    names = [e["name"] for e in d["endpoints"]]
+                    if len(names) >= 2:
+                        out.append((_rename(d, {names[0]: "a1", names[1]: "a_1"}), dict(t, topo="names", collision="scalar-array")))
+    return [(d, t) for d, t in out if d is not None]
 
 
 # ---------------------------------------------------------------------------------------------- XY meshes (C04, C07)
